@@ -81,6 +81,17 @@ def trace_check(ctx, name, cases):
                 ctx.fail("corr", "K-check trace: the recorded trace is not a run of the model",
                          dict(check="trace", case=cases[i][:4000], model_says=r[:1500], trace=logs[i][:4000]))
     ctx.k_checks["trace-" + name] = (bad == 0, len(cases))
+    # witness cross-check: the run of Model/Sys.v that the replay search found for a sample of
+    # the accepted traces is re-executed by vm_compute inside Coq (kernel VM, not the extracted
+    # code); visible events and the final directory must be the recorded ones
+    import vmcheck
+    nvm, vmf = vmcheck.run_vm_trace(ctx, cases, logs, rep, n=ctx.scale(6, 40))
+    for m in vmf[:2]:
+        ctx.fail("corr", "trace witness cross-check: the run found by the replay search is not accepted by vm_compute on Model/Sys.v",
+                 dict(check="vm-trace", detail=m))
+    if nvm:
+        old = ctx.k_checks.get("trace-witness-vs-vm_compute", (True, 0))
+        ctx.k_checks["trace-witness-vs-vm_compute"] = (old[0] and not vmf, old[1] + nvm)
     ctx.cov["traces_validated_against_impl"] = ctx.cov.get("traces_validated_against_impl", 0) + len(cases) - bad
     return logs, rep
 
